@@ -158,6 +158,21 @@ def extract(repo):
         raise ValueError("EXPresolve_op_dot: the all-enumerations test of the select branch is not the conjunction over the member list "
                          "the model expects: ..." + xp[xp.find("case0:"):xp.find("case0:") + 260])
     dot_conj = True
+    # ENTITYfind_inherited_entity (behind `SELF\\name.attr`): supertypes are compared by the name of their declaration; does a second
+    # attempt resolve `name` in the entity's scope (an interfaced supertype known under a new name: USE ... AS)?
+    ent_c = rd("src/express/entity.c")
+    fie = _norm(_body(ent_c, r"\bstruct\s+Scope_\s*\*\s*ENTITYfind_inherited_entity\s*\(\s*struct\s+Scope_\s*\*\s*entity\s*,\s*char\s*\*\s*name\s*,\s*int\s+down\s*\)\s*\{"))
+    head = r"if\(!strcmp\(name,entity->symbol\.name\)\)\{return\(entity\);\}"
+    if re.fullmatch(head + r"__SCOPE_search_id\+\+;returnENTITY_find_inherited_entity\(entity,name,down\);", fie):
+        qual_alias = False
+    elif re.fullmatch(r"struct Scope_\*result;Entitynamed;".replace(" ", "") + head +
+                      r"__SCOPE_search_id\+\+;result=ENTITY_find_inherited_entity\(entity,name,down\);if\(result\)\{returnresult;\}"
+                      r"named=\(Entity\)SCOPEfind\(entity,name,SCOPE_FIND_ENTITY\);"
+                      r"if\(named&&\(DICT_type==OBJ_ENTITY\)&&strcmp\(named->symbol\.name,name\)\)\{__SCOPE_search_id\+\+;"
+                      r"returnENTITY_find_inherited_entity\(entity,named->symbol\.name,down\);\}return0;", fie):
+        qual_alias = True
+    else:
+        raise ValueError("ENTITYfind_inherited_entity is not in a modelled form: " + fie[:300])
     uselist_fallback = "uselist" in found
     skips_null = found["full-use"].group("skip") is not None
     # every place outside error.c where the front end asks ERRORis_enabled( CODE ): the check or side effect behind it depends
@@ -198,6 +213,9 @@ def extract(repo):
            "/-- `x.name` on a SELECT nobody of which knows `name`: the warning CASE_SKIP_LABEL iff every member of the select is an",
            "    enumeration (a conjunction over the member list), the error UNDEFINED_ATTR otherwise -/",
            f"def dotAllEnumsIsConjunction : Bool := {'true' if dot_conj else 'false'}",
+           "/-- `SELF\\name.attr`: when no supertype is DECLARED under `name`, the name is resolved in the entity's scope and the search is",
+           "    repeated with the declared name of what it denotes (a supertype interfaced under a new name) -/",
+           f"def groupQualifierResolvesAlias : Bool := {'true' if qual_alias else 'false'}",
            "/-- the codes some `ERRORis_enabled( CODE )` outside error.c consults -/",
            "def guardedCodeNames : List String := [" + ", ".join(f'"{g}"' for g in guarded) + "]",
            "/-- first line number of a file, and whether the counter restarts for every file that is scanned -/",
